@@ -132,7 +132,13 @@ def shard_main(shard):
             out['hits'][name] = out['hits'].get(name, 0) + cnt
         for name, cnt in spec.facts(scn, res).items():
             out['facts'][name] = out['facts'].get(name, 0) + cnt
+        seen_here = set()
         for cls, sig, detail in spec.oracle(scn, res):
+            # the first violation of a run identifies it -- except that a
+            # listed known finding must not hide what comes after it
+            if sig in seen_here:
+                continue
+            seen_here.add(sig)
             lst = out['violations'].setdefault(sig, [])
             if len(lst) < MAX_VIOL_PER_SIG:
                 lst.append({'class': cls, 'signature': sig, 'detail': detail,
@@ -140,7 +146,8 @@ def shard_main(shard):
                             'preempts': [list(p) for p in sim.preempts],
                             'digest': sim.digest(), 'seed': seed,
                             'run_no': run_no, 'policy': pname})
-            break   # first violation of a run identifies it
+            if sig not in shard.get('known_sigs', ()):
+                break
         if len(out['samples']) < 1 and nontriv:
             out['samples'].append({
                 'seed': seed, 'scenario': spec.describe(scn),
@@ -261,8 +268,11 @@ def main(spec_name, argv):
                  load.repo_path()))
         sys.stdout.flush()
         per = spec.shard_runs
+        known_sigs = [ent.get('signature') for ent in driver.load_known()[0]
+                      if ent.get('property') == spec.prop]
         shards = [{'spec': spec_name, 'seed': driver.mix(seed, 0xC0),
-                   'lo': lo, 'hi': min(total, lo + per)}
+                   'lo': lo, 'hi': min(total, lo + per),
+                   'known_sigs': known_sigs}
                   for lo in range(0, total, per)]
         wall = 1500 if tier == 'quick' else 6 * 3600
         results = driver.run_shards(shard_main, shards, shard_wall=wall,
@@ -278,12 +288,16 @@ def main(spec_name, argv):
         known, _fixed = driver.load_known()
         findings = []
         nviol = 0
+        known_seen = []
         for sig in sorted(tot['violations']):
             recs = tot['violations'][sig]
-            nviol += 1
             rec = recs[0]
             ent = driver.is_known(spec.prop, sig, known)
             path = None
+            if ent is None:
+                nviol += 1
+            else:
+                known_seen.append(sig)
             if ent is None:
                 nunknown = sum(1 for f in findings if f['replay'])
                 if args.no_minimise or nunknown >= 4:
@@ -298,6 +312,7 @@ def main(spec_name, argv):
         wall_s = time.time() - started
         if not args.no_evidence:
             cov = coverage(spec, tot, wall_s, tier)
+            cov['known_findings_observed'] = known_seen
             if extra:
                 cov['evaluations'] += extra.get('evaluations', 0)
                 cov['distinct_nontrivial'] += extra.get('distinct', 0)
@@ -306,8 +321,10 @@ def main(spec_name, argv):
                                   wall_s, nviol, spec.assumptions)
         code = driver.report(spec.prop, findings, known)
         print('%s: %d runs, %d distinct interleavings, %d violation '
-              'signature(s), %.1fs' % (spec.prop, tot['runs'],
-                                       len(tot['digests']), nviol, wall_s))
+              'signature(s)%s, %.1fs'
+              % (spec.prop, tot['runs'], len(tot['digests']), nviol,
+                 ' + %d known finding(s)' % len(known_seen)
+                 if known_seen else '', wall_s))
         return code
     except driver.HarnessError as exc:
         print('HARNESS-ERROR: %s' % exc)
